@@ -5,7 +5,8 @@ cd "$(dirname "$0")"
 mkdir -p build
 cd coq
 [ -f Makefile ] && [ Makefile -nt _CoqProject ] || coq_makefile -f _CoqProject -o Makefile >/dev/null
-timeout 3000 make -j"${VERIF_JOBS:-16}" 2>&1 | grep -v '^COQDEP\|^COQC\|^CoqMakefile' || true
+set -o pipefail
+timeout 3000 make -j"${VERIF_JOBS:-16}" 2>&1 | { grep -v '^COQDEP\|^COQC\|^CoqMakefile' || true; }
 test -f extract/Extract.vo
 # coqc writes the extracted files into the directory it runs in
 if [ ! -f ../build/qsmodel.ml ] || [ qsmodel.ml -nt ../build/qsmodel.ml ] || [ ../ocaml/driver.ml -nt ../build/qsmodel_driver ]; then
